@@ -481,9 +481,31 @@ func runC11(c c11Case) ev.Outcome {
 			if pf3.Verify(sess, cv.EC, pk, vp.NTildei, vp.H1i, vp.H2i, cA, c2, Xbad) {
 				return accepted("Bob-WC transcript for a wrong point (reference prover)")
 			}
-			if forged := forgeBobU(sess, cv, pk, vp.NTildei, vp.H1i, vp.H2i, cA, c2, x, y, r, X, Xbad); forged != nil {
-				if forged.Verify(sess, cv.EC, pk, vp.NTildei, vp.H1i, vp.H2i, cA, c2, Xbad) {
-					return accepted("Bob-WC proof with U chosen after the challenge (U not bound by the hash)")
+			// adaptive U with the LIBRARY prover: its first random draw (the mask alpha) is supplied by the
+			// harness, so the challenge can be recovered from the response (s1 = e*x + alpha) without knowing
+			// how the challenge is derived; then U' := s1*G - e*Xbad makes the point equation hold for Xbad
+			// under that e. A verifier whose challenge binds U recomputes another e and rejects.
+			q3 := pow(q, 3)
+			alpha := add(new(big.Int).Rsh(q3, 3), int64(c.Salt))
+			nb := (q3.BitLen() + 7) / 8
+			rd := &prefixReader{prefix: alpha.FillBytes(make([]byte, nb)), rest: rand.Reader}
+			pf4, err := mta.ProveBobWC(sess, cv.EC, pk, vp.NTildei, vp.H1i, vp.H2i, cA, c2, x, y, r, Xbad, rd)
+			if err == nil {
+				if xx := new(big.Int).Sub(pf4.S1, alpha); xx.Sign() >= 0 && new(big.Int).Mod(xx, x).Sign() == 0 {
+					e := new(big.Int).Div(xx, x)
+					if e.Cmp(q) < 0 {
+						s1 := new(big.Int).Mod(pf4.S1, q)
+						em := new(big.Int).Mod(new(big.Int).Neg(e), q)
+						if s1.Sign() != 0 && em.Sign() != 0 {
+							if U2, err := crypto.ScalarBaseMult(cv.EC, s1).Add(Xbad.ScalarMult(em)); err == nil {
+								forged := &mta.ProofBobWC{ProofBob: pf4.ProofBob, U: U2}
+								if forged.Verify(sess, cv.EC, pk, vp.NTildei, vp.H1i, vp.H2i, cA, c2, Xbad) {
+									return accepted("Bob-WC proof with U chosen after the challenge (U is not bound by the challenge)")
+								}
+								out.Label += " adaptive-U"
+							}
+						}
+					}
 				}
 			}
 		default:
@@ -531,35 +553,6 @@ func runC11(c c11Case) ev.Outcome {
 		}
 	}
 	return out
-}
-
-// forgeBobU: run the honest prover for the true point X, then replace U so that the point equation
-// holds for Xbad under the SAME challenge. This is only accepted if the challenge does not bind U (or X).
-func forgeBobU(sess []byte, cv curveRef, pk *paillier.PublicKey, NT, h1, h2, c1, c2, x, y, r *big.Int, X, Xbad *crypto.ECPoint) *mta.ProofBobWC {
-	pf, err := mta.ProveBobWC(sess, cv.EC, pk, NT, h1, h2, c1, c2, x, y, r, Xbad, rand.Reader)
-	if err != nil {
-		return nil
-	}
-	// recompute e exactly as an honest transcript would have it with the prover's own U
-	k := pf
-	G := add(pk.N, 1)
-	e := hashBobWC(sess, pk.N, G, Xbad, c1, c2, k.U, k.Z, k.ZPrm, k.T, k.V, k.W)
-	e.Mod(e, cv.Q)
-	// U' = s1*G - e*Xbad
-	s1 := new(big.Int).Mod(k.S1, cv.Q)
-	if s1.Sign() == 0 {
-		return nil
-	}
-	s1G := crypto.ScalarBaseMult(cv.EC, s1)
-	em := new(big.Int).Mod(new(big.Int).Neg(e), cv.Q)
-	if em.Sign() == 0 {
-		return nil
-	}
-	U2, err := s1G.Add(Xbad.ScalarMult(em))
-	if err != nil {
-		return nil
-	}
-	return &mta.ProofBobWC{ProofBob: pf.ProofBob, U: U2}
 }
 
 func TestC11Soundness(t *testing.T) {
